@@ -357,6 +357,10 @@ Linear_System<Row>::set_space_dimension_no_ok(dimension_type space_dim) {
   for (dimension_type i = rows.size(); i-- > 0; ) {
     rows[i].set_space_dimension_no_ok(space_dim);
   }
+  if (space_dim < space_dimension_) {
+    // Removing coefficients may change the relative order of the rows.
+    sorted = false;
+  }
   space_dimension_ = space_dim;
 }
 
